@@ -89,29 +89,39 @@ func (b *c17Bind) decrypt(ct string, kctx, aad []byte) ([]byte, bool, string) {
 	return pt, true, ""
 }
 
-func TestVerif_C17_APIBinding(t *testing.T) {
+// c17BindSpecs adds the large RSA sizes in the thorough tier (one per shard).
+func c17BindSpecs(shard int) []c17Spec {
+	out := append([]c17Spec(nil), c17APISpecs...)
+	if kit.Tier() == "thorough" {
+		switch shard % 4 {
+		case 0:
+			out = append(out, c17Spec{Type: "rsa-3072"})
+		case 1:
+			out = append(out, c17Spec{Type: "rsa-4096"})
+		}
+	}
+	return out
+}
+
+// The test function names are the same as in the keysutil harness on purpose:
+// /verif/check replays a case by test-function name in every package of the
+// plan, and the case-id prefixes (rt/hist/sv vs bind/api/sig) select the one
+// package that owns the case.
+func TestVerif_C17_RoundTrip(t *testing.T) {
 	seed := kit.Seed(17)
 	shard := c17Shard()
-	r := kit.NewResult(t, "c17-api-binding", seed, "case = (key type, mode, key_version incl. default, plaintext size, associated data) through encrypt/<key> and decrypt/<key>: round trip, version label and reported key_version, independent re-open on the stored key material (exact equality for convergent keys), refusal of wrong/missing context and associated data and of ~70 mutants of the ciphertext string unless they decode to the same (version, bytes); plus (signing key type, key_version, hash_algorithm, prehashed, signature_algorithm, salt_length, marshaling_algorithm) through sign/ and verify/: standard-library verification on the stored public key, valid with equal parameters, not valid for each changed parameter / message / label / mutant; plus hmac/ and verify/ per algorithm and version against HMAC computed on the stored HMAC key; non-trivial when the tuple is distinct")
+	r := kit.NewResult(t, "c17-api-roundtrip", seed, "case = (key type, mode, key_version incl. default, plaintext size, associated data) through encrypt/<key> and decrypt/<key> of the transit backend: round trip, version label and reported key_version, independent re-open on the stored key material (exact equality for convergent keys), refusal of wrong/missing context and associated data and of ~70 mutants of the ciphertext string unless they decode to the same (version, bytes); non-trivial when the tuple is distinct")
 	defer r.Write(t)
 	ctx := context.Background()
-	for si, spec := range c17APISpecs {
+	for si, spec := range c17BindSpecs(shard) {
 		id := fmt.Sprintf("bind:%d:%s", shard, spec.name())
-		if !kit.WantCase(id) {
+		if !kit.WantCase(id) || !spec.encrypts() {
 			continue
 		}
 		rng := kit.NewRand(seed, 1747000+uint64(si)+1000*uint64(shard))
-		b := c17NewBind(ctx, r, rng, id, spec, (si+shard)%2 == 1)
-		if b == nil {
-			continue
-		}
-		if spec.encrypts() {
+		if b := c17NewBind(ctx, r, rng, id, spec, (si+shard)%2 == 1); b != nil {
 			b.encryptCases()
 		}
-		if spec.signs() {
-			b.signCases()
-		}
-		b.hmacCases()
 	}
 	r.Require("api_roundtrip_ok", 200)
 	r.Require("api_ref_reopen_ok", 100)
@@ -120,6 +130,27 @@ func TestVerif_C17_APIBinding(t *testing.T) {
 	r.Require("api_mutant_alias_returned_original", 50)
 	r.Require("api_wrong_context_refused", 50)
 	r.Require("api_wrong_aad_refused", 100)
+}
+
+func TestVerif_C17_SignVerify(t *testing.T) {
+	seed := kit.Seed(17)
+	shard := c17Shard()
+	r := kit.NewResult(t, "c17-api-signverify", seed, "case = (signing key type, key_version, hash_algorithm, prehashed, signature_algorithm, salt_length, marshaling_algorithm) through sign/ and verify/ of the transit backend: standard-library verification on the stored public key of the labelled version, valid with equal parameters, not valid for each changed parameter / input / label / derivation context / mutant of the signature string; and (key type, key_version, algorithm) through hmac/ and verify/: equality with HMAC computed on the stored HMAC key of the labelled version, not valid for changed input / algorithm / label / mutants; non-trivial when the tuple is distinct")
+	defer r.Write(t)
+	ctx := context.Background()
+	for si, spec := range c17BindSpecs(shard) {
+		id := fmt.Sprintf("sig:%d:%s", shard, spec.name())
+		if !kit.WantCase(id) {
+			continue
+		}
+		rng := kit.NewRand(seed, 1757000+uint64(si)+1000*uint64(shard))
+		if b := c17NewBind(ctx, r, rng, id, spec, (si+shard)%2 == 0); b != nil {
+			if spec.signs() {
+				b.signCases()
+			}
+			b.hmacCases()
+		}
+	}
 	r.Require("api_sign_verify_ok", 150)
 	r.Require("api_sig_changed_not_valid", 600)
 	r.Require("api_sig_mutant_not_valid", 3000)
